@@ -151,7 +151,7 @@ def keys_for(prop, case, res, op, base_cum):
                 if denied(p, deny) and not p["null"]:
                     fams.add(p["fam"] if p["fam"] in deny else "split=" + p["rc"])
         for f in sorted(fams) or ["?"]:
-            cls = "split-family:" if f.startswith("split=") else ""
+            cls = ("partial-family:" if case.get("partial") else "split-family:") if f.startswith("split=") else ""
             keys.append(("NoDeniedValue:%s:%s%s:%s:%s" % (mode, cls, delivery, oid, f),
                          "denied %s is delivered with a non-null value" % f))
     elif prop == "DenialReported":
@@ -167,7 +167,7 @@ def keys_for(prop, case, res, op, base_cum):
             bp = tuple(b["path"])
             if bp in fpaths:
                 if list(bp) not in errs:
-                    cls = "%s:split-family:" % mode if b["fam"].startswith("split=") else ""
+                    cls = "%s:%s-family:" % (mode, "partial" if case.get("partial") else "split") if b["fam"].startswith("split=") else ""
                     keys.append(("DenialReported:%s%s:visible-without-error:%s:%s:%s" % (cls, delivery, mode, oid, b["fam"]),
                                  "denied position %s is %s but no error carries its path" % (
                                      "/".join(bp), "nulled" if fpaths[bp]["null"] else "delivered with a value")))
@@ -183,6 +183,9 @@ def keys_for(prop, case, res, op, base_cum):
                 kind = "list-item" if any(x.startswith("#") for x in anchor) else "object"
                 keys.append(("DenialReported:defer:fragment-completed-without-error:anchor=%s:%s:%s:%s" % (kind, mode, oid, b["fam"]),
                              "denied position %s is not delivered and no error at or below %s tells the client why" % ("/".join(bp), "/".join(anchor) or "<root>")))
+            elif any(not e["haspath"] for e in res["errors"]):
+                keys.append(("DenialReported:%s:hidden-error-without-path:%s:%s:%s" % (delivery, mode, oid, b["fam"]),
+                             "denied position %s is hidden below %s and the only error has no path" % ("/".join(bp), "/".join(anchor) or "<root>")))
             else:
                 keys.append(("DenialReported:%s:hidden-without-error:%s:%s:%s" % (delivery, mode, oid, b["fam"]),
                              "denied position %s is hidden below %s and no error at or below it exists" % ("/".join(bp), "/".join(anchor) or "<root>")))
@@ -203,7 +206,7 @@ def keys_for(prop, case, res, op, base_cum):
         for s in sorted(seen) or ["?"]:
             keys.append(("NullPropagates:%s:%s:%s:%s" % (mode, delivery, oid, s), "null at the non-null position %s" % s))
     elif prop == "NullPropagatesExact":
-        keys.append(("NullPropagatesExact:%s:%s%s:deny=%s" % (mode, "split-family:" if case.get("split") else "", oid, "+".join(sorted(deny))),
+        keys.append(("NullPropagatesExact:%s:%s%s:deny=%s" % (mode, ("partial-family:" if case.get("partial") else "split-family:") if case.get("split") else "", oid, "+".join(sorted(deny))),
                      "data differs from the reference execution with authorization: %s" % res["final"][:300]))
     elif prop == "PrefetchRule":
         deferfams = set(op["deferfams"])
@@ -219,6 +222,15 @@ def keys_for(prop, case, res, op, base_cum):
                              "%s request to %s sent although its root fields %s are denied" % (r["kind"], r["sg"], denied_roots)))
         if not keys:
             keys.append(("PrefetchRule:%s:?:%s" % (mode, oid), "TLC rejected PrefetchRule"))
+    elif prop == "FailClosed":
+        fams = set()
+        for cum in res["cum"] + res["orph"]:
+            for p in positions(shape, cum):
+                if denied(p, deny) and not p["null"]:
+                    fams.add(p["fam"])
+        for f in sorted(fams) or ["?"]:
+            keys.append(("FailClosed:%s:%s:%s:%s:fail=%s" % (mode, delivery, oid, f, case.get("fail_fam")),
+                         "the authorizer returned an error for %s, yet %s is delivered with a value" % (case.get("fail_fam"), f)))
     else:
         keys.append(("%s:%s:%s:%s" % (prop, mode, delivery, oid), "TLC rejected %s" % prop))
     return keys
@@ -273,8 +285,11 @@ def run(ctx):
         c["deny"] = sorted(c["deny"])
         gen[lib.sha(c)] = c
     gen = sorted(gen.values(), key=lambda c: json.dumps(c, sort_keys=True))
-    splits = [c for c in gen if c["split"]]
-    gen = [c for c in gen if not c["split"]]
+    splits = [c for c in gen if c["split"] and not c["partial"]]
+    partials = [c for c in gen if c["partial"]]
+    fails = [c for c in gen if c["fail"]]
+    both = [c for c in gen if c["mode"] == "both" and not c["fail"] and not c["split"]]
+    gen = [c for c in gen if not c["split"] and not c["fail"] and c["mode"] != "both"]
     small = [c for c in gen if len(c["P"]) <= (2 if quick else 3)]
     big = [c for c in gen if len(c["P"]) > (2 if quick else 3)]
     rng.shuffle(big)
@@ -282,9 +297,8 @@ def run(ctx):
         # bin/check C14 --replay <file>: only the recorded case (it must be one the generator produces)
         with open(ctx.replay_in) as f:
             rc = json.load(f)["case"]["case"]
-        chosen = [c for c in gen + splits if c["op"] == rc["op"] and c["P"] == sorted(rc["P"]) and c["deny"] == sorted(rc["deny_fams"])
-                  and c["mode"] == rc["mode"] and c["delivery"] == rc["delivery"]]
-        if not chosen and not rc["op"].startswith("synth"):
+        chosen = [c for c in gen + splits + partials + fails + both if c == rc.get("gen")]
+        if not chosen and not rc["op"].startswith(("synth", "subs")):
             raise lib.Inconclusive("the case of %s is not produced by the generator" % ctx.replay_in)
     elif quick:
         # |P| <= 2 with P = Deny or one allowed decoy is kept in full; the remaining |P| = 2 and |P| = 3 cases are sampled
@@ -292,10 +306,14 @@ def run(ctx):
         rest = [c for c in small if c not in keep]
         rng.shuffle(rest)
         rng.shuffle(splits)
-        chosen = keep + rest[:600] + big[:1500] + [c for c in splits if len(c["P"]) == 1] + [c for c in splits if len(c["P"]) > 1][:700]
+        rng.shuffle(fails)
+        rng.shuffle(both)
+        chosen = (keep + rest[:500] + big[:1200] + [c for c in splits if len(c["P"]) == 1] + [c for c in splits if len(c["P"]) > 1][:500]
+                  + partials + fails[:700] + [c for c in both if len(c["P"]) <= 1] + [c for c in both if len(c["P"]) > 1][:900])
     else:
-        chosen = small + big + splits
-    ctx.log("generator: %d cases (|P| <= %d) + %d split-family cases, %d chosen" % (len(gen), maxp, len(splits), len(chosen)))
+        chosen = small + big + splits + partials + fails + both
+    ctx.log("generator: %d plain cases (|P| <= %d), %d both-authorizers, %d split-family, %d partial-family, %d failing-authorizer; %d chosen" % (
+        len(gen), maxp, len(both), len(splits), len(partials), len(fails), len(chosen)))
     # ---- 3. replay -----------------------------------------------------------------------------
     cases = []
     bases = {}
@@ -310,10 +328,12 @@ def run(ctx):
         s = shapes[c["op"]]
         t = text[c["op"]] if c["delivery"] == "defer" else strip_defer(text[c["op"]])
         cases.append({"id": "c%06d" % i, "op": c["op"], "text": t, "vars": "",
-                      "protect": sorted({x for f in c["P"] for x in s["famcoords"][f]}),
+                      "protect": sorted({x for f in c["P"] for x in s["famcoords"].get(f, [f])}),
                       "deny": sorted({x for f in c["deny"] for x in s["famcoords"].get(f, [f])}),
-                      "mode": c["mode"], "fresh": s["kind"] != "query", "delivery": c["delivery"], "deny_fams": c["deny"], "P": c["P"],
-                      "split": c["split"]})
+                      "fail": sorted(s["famcoords"].get(c["fail"], [])) if c["fail"] else [],
+                      "mode": c["mode"], "fresh": s["kind"] != "query", "delivery": c["delivery"],
+                      "deny_fams": sorted(c["deny"] + ([c["fail"]] if c["fail"] else [])), "P": c["P"],
+                      "split": c["split"], "partial": c["partial"], "fail_fam": c["fail"], "gen": c})
     lib.write_ndjson(ctx.path("cases.ndjson"), cases)
     ctx.run_bin(binary, ["-mode", "run", "-in", ctx.path("cases.ndjson"), "-out", ctx.path("results.ndjson"), "-par", "8"], timeout=2400)
     results = {r["id"]: r for r in lib.read_ndjson(ctx.path("results.ndjson"))}
@@ -339,11 +359,10 @@ def run(ctx):
             b = {"id": bid, "op": oid, "text": text[oid], "protect": [], "deny": [], "mode": "none", "delivery": "sync", "deny_fams": [], "P": [], "split": ""}
             cases.append(b)
             synth_in.append(dict(b, kind=o["kind"], layout=o["layout"], nnfirst=o["nnfirst"]))
-        if ctx.replay_in and not (rc["op"] == oid and sorted(rc["P"]) == sorted("%s.f%d" % (root, i) for i in c["P"])
-                                  and sorted(rc["deny_fams"]) == sorted("%s.f%d" % (root, i) for i in c["deny"]) and rc["mode"] == c["mode"]):
+        if ctx.replay_in and c != rc.get("gen"):
             continue
         sc = {"id": "s%06d" % nsynth, "op": oid, "text": text[oid], "protect": sorted(c["P"]), "deny": sorted(c["deny"]), "mode": c["mode"],
-              "delivery": "sync", "deny_fams": sorted("%s.f%d" % (root, i) for i in c["deny"]), "P": sorted("%s.f%d" % (root, i) for i in c["P"]), "split": ""}
+              "delivery": "sync", "deny_fams": sorted("%s.f%d" % (root, i) for i in c["deny"]), "P": sorted("%s.f%d" % (root, i) for i in c["P"]), "split": "", "gen": c}
         nsynth += 1
         cases.append(sc)
         synth_in.append(dict(sc, kind=o["kind"], layout=o["layout"], nnfirst=o["nnfirst"]))
@@ -351,6 +370,80 @@ def run(ctx):
     ctx.run_bin(binary, ["-mode", "synth", "-in", ctx.path("synth.ndjson"), "-out", ctx.path("synth-results.ndjson")], timeout=600)
     results.update({r["id"]: r for r in lib.read_ndjson(ctx.path("synth-results.ndjson"))})
     ctx.log("synthetic plans: %d cases" % nsynth)
+    # ---- 3c. subscription updates at the resolve level ------------------------------------------------------------
+    g = ctx.tlc_must_pass("resolve", "Gen_Authz", "Gen_Authz_3.cfg", workers=1, timeout=600, env={"PHASE": "subs", "OPS": ""}, tag="gen-subs")
+    UPDATES = 2
+    subs_in = []
+    subs_cases = {}
+
+    def leaf_f(parent, name, nn):
+        return {"key": name, "fam": parent + "." + name, "rc": parent + "." + name, "name": name, "nn": [nn], "leaf": True, "obj": {"v": []}}
+
+    for rootnn in (False, True):
+        for k in range(1, UPDATES + 1):
+            oid = "subs:%s:u%d" % ("nn" if rootnn else "nullable", k)
+            fams = ["Subscription.ev", "Event.id", "Event.secret", "Event.detail", "Detail.text", "Detail.note"]
+            shapes[oid] = {"id": oid, "kind": "subscription", "defer": False, "fams": fams, "famcoords": {f: [f] for f in fams}, "deferfams": [], "splits": [],
+                           "exact": True,
+                           "shape": {"v": [{"types": ["Subscription"], "fields": [
+                               {"key": "ev", "fam": "Subscription.ev", "rc": "Subscription.ev", "name": "ev", "nn": [rootnn], "leaf": False, "obj": {"v": [
+                                   {"types": ["Event"], "fields": [leaf_f("Event", "id", True), leaf_f("Event", "secret", False),
+                                                                   {"key": "detail", "fam": "Event.detail", "rc": "Event.detail", "name": "detail", "nn": [False],
+                                                                    "leaf": False, "obj": {"v": [{"types": ["Detail"], "fields": [
+                                                                        leaf_f("Detail", "text", True), leaf_f("Detail", "note", False)]}]}}]}]}}]}]}}
+            text[oid] = "hand-built subscription plan: subscription { ev { id secret detail { text note } } }, ev %s, update %d" % (
+                "non-null" if rootnn else "nullable", k)
+            bases[(oid, "sync")] = "base|%s|sync" % oid
+        subs_in.append({"id": "subsbase|%s" % rootnn, "rootnn": rootnn, "protect": [], "deny": [], "fail": [], "mode": "none", "updates": UPDATES})
+    nsubs = 0
+    for c in sorted(g.printed, key=lambda c: json.dumps(c, sort_keys=True)):
+        if ctx.replay_in and c != rc.get("gen"):
+            continue
+        sid = "u%06d" % nsubs
+        nsubs += 1
+        subs_cases[sid] = c
+        subs_in.append({"id": sid, "rootnn": c["subs"]["rootnn"], "protect": sorted(c["P"]), "deny": sorted(c["deny"]),
+                        "fail": [c["fail"]] if c["fail"] else [], "mode": c["mode"], "updates": UPDATES})
+    lib.write_ndjson(ctx.path("subs.ndjson"), subs_in)
+    ctx.run_bin(binary, ["-mode", "subs", "-in", ctx.path("subs.ndjson"), "-out", ctx.path("subs-results.ndjson"), "-par", "16"], timeout=1200)
+    nsubs_rejected = 0
+    for r in lib.read_ndjson(ctx.path("subs-results.ndjson")):
+        if r["panic"]:
+            ctx.violation("panic:subs", "panic in a subscription plan: %s" % r["panic"], {"result": r})
+            continue
+        if r["problem"]:
+            raise lib.Inconclusive("subscription plan %s could not be driven: %s" % (r["id"], r["problem"]))
+        if r["id"].startswith("subsbase|"):
+            rootnn = r["id"].endswith("True")
+            if len(r["frames"]) != UPDATES:
+                raise lib.Inconclusive("base subscription delivered %d payloads" % len(r["frames"]))
+            for k, fr in enumerate(r["frames"], 1):
+                oid = "subs:%s:u%d" % ("nn" if rootnn else "nullable", k)
+                bid = bases[(oid, "sync")]
+                fr["id"] = bid
+                cases.append({"id": bid, "op": oid, "text": text[oid], "protect": [], "deny": [], "mode": "none", "delivery": "sync", "deny_fams": [], "P": [], "split": ""})
+                results[bid] = fr
+            continue
+        c = subs_cases[r["id"]]
+        if not r["frames"]:
+            nsubs_rejected += 1
+            if r["started"] and not c["fail"] and "Subscription.ev" in c["deny"] and c["mode"] in ("batch", "both"):
+                ctx.violation("PrefetchRule:%s:subscription-trigger:started-without-answer" % c["mode"],
+                              "subscription trigger started although Subscription.ev is denied", {"case": c, "result": r})
+            continue
+        for k, fr in enumerate(r["frames"], 1):
+            oid = "subs:%s:u%d" % ("nn" if c["subs"]["rootnn"] else "nullable", min(k, UPDATES))
+            fid = "%s.%d" % (r["id"], k)
+            fr["id"] = fid
+            fr["asked"] = r["asked"]
+            if k == 1 and r["started"] and c["mode"] in ("batch", "both"):
+                # the subscription request itself: up-front mode must not start it when its root field is denied
+                fr["requests"].append({"sg": "events", "kind": "subscription", "roots": ["Subscription.ev"], "query": "subscription{ev{id secret}}"})
+            cases.append({"id": fid, "op": oid, "text": text[oid], "protect": sorted(c["P"]), "deny": sorted(c["deny"]), "mode": c["mode"], "delivery": "sync",
+                          "deny_fams": sorted(c["deny"] + ([c["fail"]] if c["fail"] else [])), "P": sorted(c["P"]), "split": "", "fail_fam": c["fail"],
+                          "started": r["started"], "gen": c})
+            results[fid] = fr
+    ctx.log("subscription plans: %d cases (%d rejected before anything was written)" % (nsubs, nsubs_rejected))
     if len(results) != len(cases):
         raise lib.Inconclusive("driver returned %d results for %d cases" % (len(results), len(cases)))
     by_id = {c["id"]: c for c in cases}
@@ -377,7 +470,7 @@ def run(ctx):
         if r["panic"]:
             ctx.violation("panic:%s:%s" % (c["mode"], c["op"]), "panic while executing %s with deny=%s: %s" % (c["op"], c["deny_fams"], r["panic"]),
                           {"case": c, "result": r})
-        elif r["problem"] or r["err"] or not r["cum"]:
+        elif r["problem"] or ((r["err"] or not r["cum"]) and not c.get("fail_fam")):
             harness_problems.append((c, r))
     if harness_problems:
         c, r = harness_problems[0]
@@ -395,7 +488,8 @@ def run(ctx):
                     continue
                 r = results[c["id"]]
                 f.write(json.dumps({"kind": "case", "id": c["id"], "deny": c["deny_fams"], "mode": c["mode"],
-                                    "exact": delivery == "sync" and s["kind"] == "query", "explain": not s.get("multi_root", False), "pathless": any(not e["haspath"] for e in r["errors"]),
+                                    "exact": delivery == "sync" and (s["kind"] == "query" or (s.get("exact", False) and c.get("started", False))),
+                                    "explain": not s.get("multi_root", False), "failmode": bool(c.get("fail_fam")), "pathless": any(not e["haspath"] for e in r["errors"]),
                                     "cum": r["cum"], "orph": r["orph"],
                                     "errs": [e["path"] for e in r["errors"] if e["haspath"]],
                                     "reqs": [{"kind": q["kind"], "roots": q["root_fams"]} for q in r["requests"]]}, separators=(",", ":")) + "\n")
@@ -465,7 +559,7 @@ def run(ctx):
                         hit.setdefault(pf, w)
                         break
         for fam, v in sorted(hit.items()):
-            ctx.violation("RawLeak:%s:%s%s:%s:%s" % (c["mode"], "split-family:" if fam.startswith("split=") else "", c["delivery"], c["op"], fam),
+            ctx.violation("RawLeak:%s:%s%s:%s:%s" % (c["mode"], ("partial-family:" if c.get("partial") else "split-family:") if fam.startswith("split=") else "", c["delivery"], c["op"], fam),
                           "value %r of the denied family %s occurs in the bytes written to the client [%s deny=%s mode=%s delivery=%s]" % (
                               v, fam, c["op"], c["deny_fams"], c["mode"], c["delivery"]),
                           {"case": c, "frames": r["frames"], "sentinel": v})
